@@ -34,6 +34,7 @@ Fixpoint obs_eqb (a b : obs) : bool :=
           | o :: t, o' :: t' => obs_eqb o o' && go t t'
           | _, _ => false
           end) l l'
+  | ONN a', ONN b' => obs_eqb a' b'
   | _, _ => false
   end.
 Definition opkind_eqb a b :=
@@ -84,6 +85,7 @@ Fixpoint spec_obs (nest : bool) (o : obs) (ts : tbl * ustack) : tbl * ustack :=
   | OC _ body exit _ =>
     let ts' := fold_left (fun a x => spec_obs nest x a) body ts in
     match exit with CNil => ts' | _ => if nest then ts else ts' end
+  | ONN o' => spec_obs false o' ts   (* nested transactions disabled for this call and below: nothing undone by itself *)
   | _ => ts
   end.
 Definition spec_list (nest : bool) (l : list obs) (a : tbl * ustack) : tbl * ustack :=
@@ -109,6 +111,7 @@ Fixpoint prop_ok (o : obs) : bool :=
   | OC entered body exit ret =>
     (if is_nil exit then (if entered then is_nil ret else negb (is_nil ret)) else cls_eqb ret exit)
     && forallb prop_ok body
+  | ONN o' => prop_ok o'
   | _ => true
   end.
 (* the outermost call: nil iff function returned nil and the commit succeeded; a failed
@@ -129,18 +132,21 @@ Fixpoint stmt_errs (o : obs) : list cls :=
   match o with
   | OW _ r | OR r _ => if is_nil r then [] else [r]
   | OC _ body _ _ => flat_map stmt_errs body
+  | ONN o' => stmt_errs o'
   | _ => []
   end.
 Fixpoint save_errs (o : obs) : list cls :=
   match o with
   | OS _ r => if is_nil r then [] else [r]
   | OC _ body _ _ => flat_map save_errs body
+  | ONN o' => save_errs o'
   | _ => []
   end.
 Fixpoint rb_errs (o : obs) : list cls :=
   match o with
   | ORb _ r => if is_nil r then [] else [r]
   | OC _ body _ _ => flat_map rb_errs body
+  | ONN o' => rb_errs o'
   | _ => []
   end.
 Definition countf (k : opkind) (ops : list (opkind * bool)) : nat :=
@@ -180,7 +186,7 @@ Definition spec_holds (c : case) : bool :=
   && (rb_refused (o_top c) (o_ops c)
       || (same_set (o_table c) (spec_final (negb (c_nonest (c_cfg c))) (o_top c) (o_ops c) [])
           && top_ok (o_top c) (o_ops c)
-          && usable_cfg (c_nosp (c_cfg c)) (negb (no_cancel (c_prog c))) (o_top c) (o_ops c)
+          && usable_cfg (c_nosp (c_cfg c)) (negb (plain_prog (c_prog c))) (o_top c) (o_ops c)
           && extras_ok (c_extra c) (o_extra c))).
 
 Definition check_case (c : case) : N := code_of (model_agrees c) (spec_holds c).
